@@ -454,14 +454,7 @@ func applyEdit(sb *sandbox.Sandbox, e *Edit) {
 		os.Symlink(string(e.Data), p)
 	case "rand": // MTime bytes of a generator seeded by Data: big files without big witnesses
 		os.MkdirAll(filepath.Dir(p), 0o777)
-		h := fnv.New64a()
-		h.Write(e.Data)
-		r := rand.New(rand.NewPCG(h.Sum64(), 7))
-		b := make([]byte, e.MTime)
-		for i := 0; i+8 <= len(b); i += 8 {
-			binary.LittleEndian.PutUint64(b[i:], r.Uint64())
-		}
-		os.WriteFile(p, b, 0o666)
+		os.WriteFile(p, RandBytes(string(e.Data), e.MTime), 0o666)
 	case "many": // Data = newline-separated paths below Path; each file holds "<path> <MTime>\n"
 		for _, q := range strings.Split(string(e.Data), "\n") {
 			if q == "" {
@@ -472,6 +465,19 @@ func applyEdit(sb *sandbox.Sandbox, e *Edit) {
 			os.WriteFile(f, []byte(fmt.Sprintf("%s %d\n", q, e.MTime)), 0o666)
 		}
 	}
+}
+
+// RandBytes: n pseudo-random (incompressible) bytes determined by seed; a prefix-stable stream, so that the bytes for
+// n and n+1 differ only in the last byte.
+func RandBytes(seed string, n int64) []byte {
+	h := fnv.New64a()
+	h.Write([]byte(seed))
+	r := rand.New(rand.NewPCG(h.Sum64(), 7))
+	b := make([]byte, (n+7)/8*8)
+	for i := 0; i+8 <= len(b); i += 8 {
+		binary.LittleEndian.PutUint64(b[i:], r.Uint64())
+	}
+	return b[:n]
 }
 
 // EditMany writes many small files in one monitored step (gen is the number put into every file).
